@@ -2051,6 +2051,16 @@ def clean_dictionary(ddct):
                 "{} must be {} around line {}".format(
                     key, what, ddct.get("__line__", "?")))
 
+    #  attrs:
+    #    arg1:
+    #      intent: in
+    if isinstance(ddct.get("attrs"), dict):
+        for name, value in ddct["attrs"].items():
+            if name != "__line__" and not isinstance(value, dict):
+                raise RuntimeError(
+                    "attrs of '{}' must be a dictionary around line {}".format(
+                        name, ddct.get("__line__", "?")))
+
     if "default_arg_suffix" in ddct:
         default_arg_suffix = ddct["default_arg_suffix"]
         if not isinstance(default_arg_suffix, list):
@@ -2083,6 +2093,10 @@ def clean_dictionary(ddct):
                 raise RuntimeError(
                     "instantation must be defined for each dictionary in cxx_template"
                 )
+            if not isinstance(dct["instantiation"], str):
+                raise RuntimeError(
+                    "instantiation must be a string in cxx_template around line {}"
+                    .format(ddct.get("__line__", "?")))
             newlst.append(
                 TemplateArgument(
                     dct["instantiation"],
@@ -2118,6 +2132,11 @@ def clean_dictionary(ddct):
             if "decl" not in dct:
                 raise RuntimeError(
                     "decl must be defined for each dictionary in fortran_generic at line {}"
+                    .format(linenumber)
+                )
+            if not isinstance(dct["decl"], str):
+                raise RuntimeError(
+                    "decl must be a string in fortran_generic at line {}"
                     .format(linenumber)
                 )
             newlst.append(
